@@ -27,7 +27,13 @@ def gen(rng, tier):
                         constants=0.25, bbs=rng.choice((0, 0, 1)), parity_bias=rng.choice((0.0, 0.5)))
     elif op == "limit_fanout":
         net = G.gen_net(rng, n_inputs=(1, 4) if big else (1, 3), n_gates=(10, 22) if big else (3, 14), types=G.swarm_types(rng), max_arity=3,
-                        constants=0.2, bbs=rng.choice((0, 0, 1)))
+                        constants=0.2, bbs=rng.choice((0, 0, 1, 2, 3)))
+        pins = [n for n, v in net["nodes"].items() if v[0] == "bb_input"]
+        if len(pins) >= 2 and rng.random() < 0.5:
+            # one net (a clock, an enable) wired to many pins of the instances: its loads are pins, not gates
+            drv = rng.choice([n for n, v in net["nodes"].items() if v[0] not in ("bb_input", "bb_output")])
+            for p in rng.sample(pins, rng.randint(2, len(pins))):
+                net["nodes"][p][1] = [drv]
     elif op == "insert_registers":
         net = G.gen_net(rng, n_inputs=(1, 4), n_gates=(2, 12), types=G.swarm_types(rng), max_arity=3, constants=0.2,
                         bbs=rng.choice((0, 0, 0, 1, 2)))
@@ -52,7 +58,7 @@ def gen(rng, tier):
     if rng.random() < 0.4:
         # a history: earlier transforms whose RESULT (with its generated names) is the argument of the judged call
         for _ in range(rng.randint(1, 2)):
-            pre.append([rng.choice(("limit_fanin", "limit_fanin", "limit_fanout") + (("insert_registers",) if op == "insert_registers" else ())),
+            pre.append([rng.choice(("limit_fanin", "limit_fanin", "limit_fanout") + (("insert_registers",) if op in ("insert_registers", "limit_fanout") else ())),
                         rng.randint(2, 6)])
     return {"net": net, "op": op, "k": k, "stages": rng.randint(1, 4), "pre": pre, "peer": {"seed": rng.getrandbits(32)}}
 
